@@ -101,7 +101,7 @@ def describe(c, strings):
     def s(i): return strings[i] if 0 <= i < len(strings) else '#%d' % i
     return dict(chain=[dict(m) for m in c['mws']], in_flight=c['flight'],
                 script=[dict(pre=x['pre'], result=x['res']) for x in c['script']],
-                initial_message=c['init'], observed_invocations=c['invs'],
+                initial_message=c['init'], observed_invocations=c['invs'], rejected_clauses=c.get('rejected_clauses'),
                 strings={str(i): s(i) for i in sorted(set(_ids(c)))[:40]})
 
 def _ids(x):
@@ -112,10 +112,15 @@ def _ids(x):
             yield x[1]
         for v in x: yield from _ids(v)
 
-def signature(c):
-    """what fails, by the smallest description that identifies it"""
-    kinds = sorted({m['k'] for m in c['mws']})
-    return 'C19/acceptor{' + ','.join(kinds) + '}'
+CLAUSE = {0: 'handler-not-called-exactly-once', 1: 'handler-sees-wrong-message(deadline/ack/context/metadata)', 2: 'error-or-panic-value-changed',
+          3: 'outputs-changed', 4: 'context-not-restored-after-call', 5: 'settlement-changed', 6: 'metadata-or-delay-schedule',
+          10: 'attempt-count-differs-from-bare-retry', 11: 'attempt-numbering', 12: 'retry-hook-sequence', 13: 'error-or-panic-value-changed-under-retry',
+          14: 'first-attempt-sees-wrong-message', 15: 'context-not-restored-after-call'}
+
+def signature(c, reasons):
+    """what fails: the rejected clauses of the first rejected invocation + the middleware kinds that can cause them"""
+    cl = sorted({CLAUSE.get(r % 100, str(r % 100)) for r in reasons})
+    return 'C19/' + '+'.join(cl)
 
 def classify(c):
     ks = [m['k'] for m in c['mws']]
@@ -147,10 +152,11 @@ def run_once(ctx, res, binary, seed, n, thr, witness, tag):
     for part, chunk in enumerate(C.chunks(cases, 400)):
         r = C.coq_eval(pid, 'cases_%s_%d' % (tag, part),
                        HEADER + 'Definition cases : list c19_case := %s.\n' % lst(case_term(c) for c in chunk),
-                       [('R_mis', 'c19_mismatches repaired cases'), ('R_vio', 'c19_violations cases')])
+                       [('R_mis', 'c19_mismatches repaired cases'), ('R_vio', 'c19_violations cases'), ('R_why', 'map c19_reasons cases')])
         for i in r['R_vio']:
             c = chunk[i]
-            res.violations.append(dict(signature=signature(c),
+            c['rejected_clauses'] = ['invocation %d: %s' % (x // 100, CLAUSE.get(x % 100, x % 100)) for x in r['R_why'][i]]
+            res.violations.append(dict(signature=signature(c, r['R_why'][i]),
                 what='chain %s around a scripted handler: the observed invocation is rejected by the C19 acceptor (result/outputs/error unchanged but for the documented effect, '
                      'handler called once / as often as under a bare Retry, deadline+Ack visible during the call, context restored after it, delay metadata per schedule)' % chain_name(c),
                 case=describe(c, strings)))
